@@ -301,25 +301,25 @@ func (e *Evaluator) evalExpr(expr Expr) (*Cell, error) {
 					e.stackTop.locals[k] = v
 				}
 
+				var result *Cell
+				var bodyErr error
 				switch body := matchCase.Body.(type) {
 				case *StatementExpr:
-					val, err := e.evalExpr(body.Expr)
-					if err != nil {
-						return nil, err
-					}
-					return val, nil
+					result, bodyErr = e.evalExpr(body.Expr)
 				default:
-					err := e.evalStatement(body)
-					if err != nil {
-						return nil, err
-					}
+					bodyErr = e.evalStatement(body)
+					result = NewCell(NewValue(nil))
 				}
 
+				// the case is finished however its body ended
 				if err := e.popFrame(); err != nil {
 					return nil, err
 				}
 
-				return NewCell(NewValue(nil)), nil
+				if bodyErr != nil {
+					return nil, bodyErr
+				}
+				return result, nil
 			}
 		}
 		return NewCell(NewValue(nil)), nil
@@ -432,6 +432,12 @@ func (e *Evaluator) callFunction(exp *ExprCall, fn *Cell, args []*Value) (*Cell,
 		}
 
 		err := e.evalStatement(f.Body)
+
+		// the call is finished however its body ended
+		if err := e.popFrame(); err != nil {
+			return nil, err
+		}
+
 		var retVal *Value
 		if err == errReturn {
 			retVal = e.returnVal
@@ -439,10 +445,6 @@ func (e *Evaluator) callFunction(exp *ExprCall, fn *Cell, args []*Value) (*Cell,
 			return nil, err
 		} else {
 			retVal = nil
-		}
-
-		if err := e.popFrame(); err != nil {
-			return nil, err
 		}
 
 		if retVal != nil {
